@@ -322,7 +322,9 @@ def expand(ctx, path, out, depth=0):
         rest = rest.strip()
         if cmd == "include":
             saved_mode, saved_source = ctx.contracts_only, ctx.source
+            out.append("//@@origin %s" % rest)
             expand(ctx, os.path.join(VERIF, rest), out, depth + 1)
+            out.append("//@@origin %s" % os.path.relpath(path, VERIF))
             ctx.contracts_only, ctx.source = saved_mode, saved_source  # `//@ mode` / `//@ source` inside an include do not leak out
         elif cmd == "source":
             ctx.source = rest
